@@ -201,6 +201,19 @@ def run(case):
         mx = np.asarray(single_axis(rg2, "x").create_mask(R, shape)).astype(bool)
         case.check(np.array_equal(du, my | mx), "dual_axis mask is not the union of its axes",
                    shape=shape, ry=rg, rx=rg2)
+        # a union built from model objects the caller keeps: evaluating the union leaves its members as they were
+        from acryo.tilt._base import UnionAxes
+
+        obj_y, obj_x = single_axis(rg, "y"), single_axis(rg2, "x")
+        first_y = np.asarray(obj_y.create_mask(R, shape)).astype(bool)
+        uni = UnionAxes([obj_y, obj_x])
+        um = np.asarray(uni.create_mask(R, shape)).astype(bool)
+        after_y = np.asarray(obj_y.create_mask(R, shape)).astype(bool)
+        after_x = np.asarray(obj_x.create_mask(R, shape)).astype(bool)
+        case.check(np.array_equal(um, my | mx) and np.array_equal(after_y, my) and np.array_equal(after_x, mx)
+                   and np.array_equal(first_y, my),
+                   "evaluating a union of tilt models changed the mask of one of its members", None, shape=shape,
+                   ry=rg, rx=rg2, y_changed=int((after_y != my).sum()), x_changed=int((after_x != mx).sum()))
         # real image stays real (off-Nyquist asymmetry is the only allowed source)
         if m_model is not None and min(shape) >= 2:
             img = rng.normal(size=shape)
